@@ -133,9 +133,9 @@ SAMPLE = ("obj", "smpl_extract.generalized.sample:Sample", {"name": "str", "_exp
 PAIR_L = "[\\\\s\\\\S]*[\\\\s\\\\-]L"       # ... a blank or hyphen, then the final letter
 
 
-@contract("smpl_extract.generalized.sample:combine_stereo#abstract", abstract=True, assumed=True,
-          note="combine_stereo(left, right, new_name): a new two-stream sample whose stream 0 is left's and stream 1 is right's, "
-               "exported under new_name (its body copies dataclass fields: not modelled; the stereo WAV encoding of such a sample is C04/C12)")
+@contract("smpl_extract.generalized.sample:combine_stereo#abstract", abstract=True, assumed=False,
+          note="combine_stereo(left, right, new_name): a new two-stream sample whose stream 0 is left's and stream 1 is right's, exported under new_name - "
+               "proved of the real function by the contract smpl_extract.generalized.sample:combine_stereo (same file); this tagged form only adds ghost ids")
 def _cs(c):
     c.param("left", SAMPLE)
     c.param("right", SAMPLE)
